@@ -339,6 +339,23 @@ func (d *Driver) runStep(s *session, step tf.M) (interesting bool) {
 	for i, v := range w.Vals {
 		app.OracleKeeper.SetValidatorStatus(ctx, v.ValAddr, oracletypes.NewValidatorStatus(act[i], r.Time))
 	}
+	// the staking record's jailed flag is an input the allocation must not depend on (a validator jailed in the previous
+	// block is still in the last commit's vote set with its power and still oracle-active): varied as a function of the step
+	for i, v := range w.Vals {
+		sv, err := app.StakingKeeper.GetValidator(ctx, v.ValAddr)
+		if err != nil {
+			continue
+		}
+		jh := fnv.New32a()
+		fmt.Fprint(jh, "jail", step, i)
+		want := jh.Sum32()%6 == 0
+		if sv.Jailed != want {
+			sv.Jailed = want
+			if err := app.StakingKeeper.SetValidator(ctx, sv); err != nil {
+				panic(err)
+			}
+		}
+	}
 	if s.g != nil {
 		gid := tss.GroupID(0)
 		if grp {
